@@ -72,6 +72,12 @@ func expected(name string, k *cuworld.Kernel, g cuworld.Geometry) []byte {
 			} else {
 				out(uint32(nb))
 			}
+		case "k10_many_scalar_loads":
+			out(in(1) + in(2) + in(3) + in(4) + in(5) + in(6) + uint32(l))
+		case "k11_many_stores":
+			out(uint32(l) + 3)
+			le.PutUint32(m[cuworld.Tmp+4*gid:], uint32(l)+2)
+			le.PutUint32(m[cuworld.Out2+4*gid:], uint32(l)+3)
 		default:
 			panic("no reference for " + name)
 		}
@@ -277,7 +283,7 @@ func body(k *cuworld.Kernel, g cuworld.Geometry, o cuworld.TimingOpts) explore.B
 func main() {
 	r := harness.Start("C14", "model_checking")
 	ks := cuworld.LoadKernels(harness.Dir())
-	names := []string{"k1_lds_barrier", "k2_global_barrier", "k3_two_barriers", "k4_waitcnt_vm", "k5_waitcnt_lgkm", "k6_early_exit_before_barrier", "k7_late_exit_without_barrier", "k8_store_then_endpgm", "k9_exit_with_pending_store_while_others_wait"}
+	names := []string{"k1_lds_barrier", "k2_global_barrier", "k3_two_barriers", "k4_waitcnt_vm", "k5_waitcnt_lgkm", "k6_early_exit_before_barrier", "k7_late_exit_without_barrier", "k8_store_then_endpgm", "k9_exit_with_pending_store_while_others_wait", "k10_many_scalar_loads", "k11_many_stores"}
 
 	// --- the emulation CU as a second implementation: values and executed-PC sequences
 	type geo = cuworld.Geometry
@@ -341,6 +347,28 @@ func main() {
 			o := cuworld.TimingOpts{Scoreboard: false, Resident: g.NumWG, Delays: []int{9, 60}}
 			scs = append(scs, harness.Scenario{Name: fmt.Sprintf("%s/wg%dx%d/many-waiting/resident%d", n, g.WGSize, g.NumWG, g.NumWG), Bound: b, Body: body(ks[n], g, o)})
 		}
+	}
+	// sustained back-pressure: a memory that takes one request per N cycles while 16-32 wavefronts issue
+	// several accesses each, so that the CU's 32-entry port buffer and the unit's own queue fill up
+	for _, sl := range []struct {
+		k          string
+		g          geo
+		s, v, i, b int
+	}{
+		{"k10_many_scalar_loads", geo{512, 2}, 60, 0, 0, 1},
+		{"k5_waitcnt_lgkm", geo{1024, 2}, 60, 0, 0, 0},
+		{"k11_many_stores", geo{512, 2}, 0, 40, 0, 1},
+		{"k4_waitcnt_vm", geo{512, 2}, 0, 40, 0, 0},
+		{"k2_global_barrier", geo{256, 2}, 0, 25, 0, 0},
+		{"k10_many_scalar_loads", geo{256, 2}, 25, 25, 12, 0},
+		{"k3_two_barriers", geo{256, 2}, 0, 0, 12, 0},
+	} {
+		b := sl.b
+		if !r.Thorough() && b > 0 {
+			b = 0
+		}
+		o := cuworld.TimingOpts{Resident: sl.g.NumWG, Delays: []int{9, 60}, SlowScalar: sl.s, SlowVector: sl.v, SlowInst: sl.i, Horizon: 60000}
+		scs = append(scs, harness.Scenario{Name: fmt.Sprintf("%s/wg%dx%d/slow-memory(s%d,v%d,i%d)/resident%d", sl.k, sl.g.WGSize, sl.g.NumWG, sl.s, sl.v, sl.i, sl.g.NumWG), Bound: b, Body: body(ks[sl.k], sl.g, o)})
 	}
 	r.Assume = []string{
 		"memory answers arrive in request order on each of the three memory paths (the shader array places a reorder buffer on each; that is property C15); latencies are explored",
